@@ -94,6 +94,28 @@ def run(prog: Program, ctx: Ctx) -> None:  # noqa: PLR0912,PLR0915
                     continue
                 seen_bad.add(cls_key)
             ctx.ob("R1", f"mro|{desc}|C{i}", ok, f"{desc}: mro(C{i}) = {got}; CPython: {exp}", where(mro_fn), nontrivial=len(h[i]) > 1)
+    if n < 5:
+        # quick tier: also the five-class hierarchies whose last class has three bases over chains (where the merge has to come back to an earlier list)
+        light = [[()], [(), (0,)], [(), (0,), (1,)], [(), (0,), (1,), (2,)], [p_ for p_ in itertools.permutations(range(4), 3)]]
+        for h in itertools.product(*light):
+            want = cpython_mro(h)
+            if want[4] is None and any(want[b] is None for b in h[4]):
+                continue
+            objs = build(h)
+            it.steps = 0
+            try:
+                got = [c.attrs["name"] for c in it.call(mro_fn, objs[4])]
+            except Raised as r:
+                got = f"raises {r.exc}"
+            exp = want[4] if want[4] is not None else "raises ValueError"
+            rows += 1
+            desc = "; ".join(f"C{j}({', '.join(f'C{b}' for b in bs)})" for j, bs in enumerate(h))
+            if got != exp:
+                cls_key = f"3 bases of 5|{'inconsistent' if want[4] is None else 'consistent'}"
+                if cls_key in seen_bad:
+                    continue
+                seen_bad.add(cls_key)
+            ctx.ob("R1", f"mro|{desc}|C4", got == exp, f"{desc}: mro(C4) = {got}; CPython: {exp}", where(mro_fn), nontrivial=True)
     ctx.expect_min("R1", rows, 150)
     ctx.analysed["hierarchies_rows"] = rows
 
@@ -114,6 +136,22 @@ def run(prog: Program, ctx: Ctx) -> None:  # noqa: PLR0912,PLR0915
             got = f"does not terminate on the abstract hierarchy ({exc})"
         ctx.ob("R2", f"cycle|{label}", got == "raises ValueError", f"cyclic hierarchy {label}: mro() {got}; expected ValueError", where(mro_fn))
     im = prog.function(f"{M}.Object.inherited_members")
+    # hierarchies CPython refuses (inconsistent order, cycles) have no MRO: nothing is inherited through them, own members stay
+    for label, h_, who in (("A; B(A); C(A, B)", ((), (0,), (0, 1)), 2), ("X(A, B); Y(B, A); Z(X, Y)", ((), (), (0, 1), (1, 0), (2, 3)), 4)):
+        objs = build(h_)
+        for o_ in objs:
+            o_.attrs["members"] = {f"from_{o_.attrs['name']}": Obj(prog.cls(f"{M}.Attribute"), {"name": f"from_{o_.attrs['name']}", "is_alias": False, "inherited": False}, label="member")}
+            o_.attrs["inherited"] = False
+        it.class_stubs[f"{M}.Alias"] = lambda _i, name, target=None, **k: Obj(None, {"name": name, "target": target, "is_alias": True, **k}, label=f"alias {name}")
+        try:
+            it.steps = 0
+            got_i = sorted(it.getattr(objs[who], "inherited_members"))
+            got_a = sorted(it.getattr(objs[who], "all_members"))
+        except Raised as r:
+            got_i = got_a = [f"raises {r.exc}"]
+        it.class_stubs.pop(f"{M}.Alias", None)
+        own = [f"from_C{who}"]
+        ctx.ob("R2", f"inconsistent|{label}", got_i == [] and got_a == own, f"{label} is refused by CPython: inherited members {got_i} (expected none), all members {got_a} (expected {own})", where(im))
     for c in calls_in(im.node):
         if isinstance(c.func, ast.Attribute) and c.func.attr == "mro":
             ctx.ob("R2", key(im, "ValueError-handled"), "ValueError" in enclosing_catch(c) or bool(enclosing_catch(c) & {"Exception"}),
